@@ -325,6 +325,10 @@ func (u *Unmarshaler) generateMap(keyType, elemType reflect.Type, mapValue any) 
 	}
 
 	refValue := reflect.ValueOf(mapValue)
+	if refValue.Kind() != reflect.Map || !refValue.Type().Key().AssignableTo(keyType) {
+		return emptyValue, errTypeMismatch
+	}
+
 	targetValue := reflect.MakeMapWithSize(mapType, refValue.Len())
 	fieldElemKind := elemType.Kind()
 	dereffedElemType := Deref(elemType)
